@@ -141,7 +141,10 @@ impl Table {
             if key != filter_name {
                 return Ok(None);
             }
-            let filter_block_location = BlockHandle::decode(&val).0;
+            let filter_block_location = match BlockHandle::try_decode(&val) {
+                Some((location, _)) => location,
+                None => return err(StatusCode::Corruption, "bad block handle in metaindex block"),
+            };
             if filter_block_location.size() > 0 {
                 check_block_bounds(&filter_block_location, file_size)?;
                 return Ok(Some(table_block::read_filter_block(
@@ -210,8 +213,9 @@ impl Table {
         iter.seek(key);
 
         if let Some((_, val)) = current_key_val(&iter) {
-            let location = BlockHandle::decode(&val).0;
-            return location.offset();
+            if let Some((location, _)) = BlockHandle::try_decode(&val) {
+                return location.offset();
+            }
         }
 
         return self.footer.meta_index.offset();
@@ -239,7 +243,10 @@ impl Table {
         let handle;
         if let Some((last_in_block, h)) = current_key_val(&index_iter) {
             if self.opt.cmp.cmp(key, &last_in_block) != Ordering::Greater {
-                handle = BlockHandle::decode(&h).0;
+                handle = match BlockHandle::try_decode(&h) {
+                    Some((handle, _)) => handle,
+                    None => return err(StatusCode::Corruption, "bad block handle in index block"),
+                };
             } else {
                 return Ok(None);
             }
@@ -301,7 +308,10 @@ impl TableIterator {
 
     // Load the block at `handle` into `self.current_block`
     fn load_block(&mut self, handle: &[u8]) -> Result<()> {
-        let (new_block_handle, _) = BlockHandle::decode(handle);
+        let new_block_handle = match BlockHandle::try_decode(handle) {
+            Some((handle, _)) => handle,
+            None => return err(StatusCode::Corruption, "bad block handle in index block"),
+        };
         let block = self.table.read_block(&new_block_handle)?;
 
         self.current_block = Some(block.iter());
